@@ -66,6 +66,10 @@ def gen_e2e(r, tier):
     for p in c01.two_repartitions():
         for cfg in ("local", "bm M2 P4"):
             yield "%s ;; run %s" % (cfg, p)
+    # many producer tasks of one Repartition running at the same time in one process (the partition function's argument
+    # vector must not be shared between them)
+    for cfg, n in (("local P8", 24000), ("bm M4 P8", 16000), ("local P4 CH2", 6000)):
+        yield "%s ;; run N0=lines 8 %d ; N1=map N0 swap ; N2=repartition N1 byval ; OUT N2" % (cfg, n)
     n = 6 if tier == "quick" else 120
     for op in KEYED:
         for feed in ("src", "pipe", "result", "presult", "twostage"):
